@@ -46,7 +46,8 @@ def run_cli(data, workdir, pattern, quiet=True):
     argv = [path, "-o", os.path.join(workdir, pattern)] + (["-q"] if quiet else [])
     try:
         with contextlib.redirect_stdout(out), contextlib.redirect_stderr(err):
-            rc = cli.main(argv)
+            with vc2run.fresh_process_int_limit():
+                rc = cli.main(argv)
     except vc2run.OutOfScope:
         return "oos", "", []
     except SystemExit as e:
@@ -168,6 +169,10 @@ def conformant_inputs(tier):
     for g, c in encspace.groups(tier):
         if g in ("G1", "G2") and (tier == "thorough" or (hash_stable(c) % 6 == 0)):
             out.append(("enc", c))
+        if g == "G1" and c.get("slices_x") == 2 and c.get("fragment_slice_count") in (0, 1) and c == [x for gg, x in encspace.groups(tier) if gg == "G1" and x.get("slices_x") == 2 and x.get("fragment_slice_count") == c.get("fragment_slice_count")][0]:
+            # conformant streams carrying a legal value of more than 4300 decimal digits
+            out.append(("enc", dict(c, frame_rate_numer=(1 << 20000) + 12345, frame_rate_denom=1001)))
+            out.append(("enc", dict(c, pixel_aspect_ratio_numer=7, pixel_aspect_ratio_denom=(1 << 15000) + 1)))
         if g == "G3" and (tier == "thorough" or (hash_stable(c) % 3 == 0) or c["luma_excursion"].bit_length() != c["color_diff_excursion"].bit_length()):
             out.append(("enc", c))
     return out
